@@ -75,11 +75,18 @@ def expect_ret(ctx: Ctx, fi: FuncInfo, o: Orient, want: str, what: str):
     if not o.returns:
         raise AnchorError(fi.short, "no return value")
     for r, v in o.returns:
+        n_before = len(o.issues)
         v2 = o.resolve_pad(v, r, norm(r.value)) if v.lay.startswith(("FRONTPAD", "ENDPAD")) else v
+        if v.lay.startswith("TEXP:") and v.lay.split(":", 1)[1].startswith(("FRONTPAD", "ENDPAD")) and what not in ("fill", "shift_left"):
+            o.resolve_pad(Qual(v.lay.split(":", 1)[1]), r, norm(r.value))
+        for iss in o.issues[n_before:]:
+            ctx.fail(iss.rule, fi, what, iss.msg, iss.node)
         lay = v2.lay.split(":", 1)[1] if v2.lay.startswith("TEXP:") else v2.lay
         if lay.startswith(("FRONTPAD", "ENDPAD")):
             lay = lay.split(":", 1)[1]
         ok = lay == want or (want == "LE" and lay in ("LE", "SCALED")) or (want == "BE" and lay in ("BE",))
+        if lay == "?" and o.issues:
+            continue  # the flow findings already reported explain why no layout can be assigned
         if lay == "?":
             raise AnchorError(fi.short, f"{what}: the layout of `{norm(r.value)[:60]}` cannot be inferred (idiom outside the tables)")
         ctx.check(ok and v2.pre == "none", "OR-SIG", fi, f"{what}: returns {want}", f"inferred {v2}", f"declared (docstring / callers) to return a {want} sequence, but `{norm(r.value)[:70]}` is {v2}", r)
